@@ -67,6 +67,11 @@ structure Details where
   certVersion : Nat := 0
   deriving DecidableEq, Repr
 
+/-- Field values a schema message can hold (`uint32` / `uint64` ranges; Go slice lengths). -/
+def Details.inRange (d : Details) : Prop :=
+  d.cert.length < 2 ^ 64 ∧ d.initiatorIndex < 2 ^ 32 ∧ d.responderIndex < 2 ^ 32 ∧ d.cookie < 2 ^ 64 ∧
+  d.time < 2 ^ 64 ∧ d.certVersion < 2 ^ 32
+
 structure Msg where
   hasDetails : Bool := false
   details : Details := {}
